@@ -255,7 +255,10 @@ def check_condense(ctx, path_in, path_out, store_anc, store_basin, witness=None)
     with dclab.new_dataset(path_in, enable_basins=store_basin) as ds, \
             h5py.File(path_out, "r") as ho:
         eo = ho["events"] if "events" in ho else {}
-        scal = set(ds.features_scalar)
+        # (the scalar feature names by the documented rule, not only by dclab's own listing:
+        # machine-learning scores ml_score_??? are scalar features)
+        scal = set(ds.features_scalar) | {f for f in ds.features_loaded
+                                          if re.match(r"^ml_score_[0-9a-z]{3}$", f)}
         must = {f for f in ds.features_loaded if f in scal}
         if store_basin:
             must |= {f for f in ds.features_basin if f in scal}
